@@ -959,9 +959,11 @@ class Interp:
             return Unknown("lambda")
         return Unknown(f"expression {type(e).__name__}")
 
-    def list_comp(self, e: ast.ListComp, state: State, rel: str) -> Any:
-        if len(e.generators) != 1 or e.generators[0].ifs or e.generators[0].is_async:
-            return Unknown("comprehension with a filter or several generators")
+    def list_comp(self, e: ast.ListComp, state: State, rel: str, gi: int = 0) -> Any:
+        if any(g.ifs or g.is_async for g in e.generators):
+            return Unknown("comprehension with a filter")
+        if len(e.generators) > 1:
+            return self._nested_comp(e, state, rel)
         g = e.generators[0]
         it = self.eval(g.iter, state, rel)
         out = ListV([])
@@ -994,6 +996,49 @@ class Interp:
                     state.env.pop(k, None)
                 else:
                     state.env[k] = v
+
+    def _nested_comp(self, e: ast.ListComp, state: State, rel: str) -> Any:
+        """[elt for a in A for b in B ...]  ==  nested for loops appending elt"""
+        out = ListV([])
+        saved_names = {n.id: state.env.get(n.id, _MISSING) for g in e.generators for n in ast.walk(g.target) if isinstance(n, ast.Name)}
+
+        def rec(gi: int) -> bool:
+            if gi == len(e.generators):
+                out.segs.append(Seg(self.eval(e.elt, state, rel), state.binders))
+                return True
+            g = e.generators[gi]
+            it = self.eval(g.iter, state, rel)
+            items = None
+            if not (isinstance(it, RangeV) and it.lo.is_const() and it.hi.is_const() and it.hi.const - it.lo.const > max(1, self.unroll_ranges)):
+                items = self.concrete_items(it)
+            if items is not None:
+                for item in items:
+                    self.assign(g.target, item, state, rel)
+                    if not rec(gi + 1):
+                        return False
+                return True
+            fams = self.families(it)
+            if fams is None:
+                return False
+            for elem, binders in fams:
+                self.assign(g.target, elem, state, rel)
+                saved_b = state.binders
+                state.binders = state.binders + tuple(binders)
+                try:
+                    if not rec(gi + 1):
+                        return False
+                finally:
+                    state.binders = saved_b
+            return True
+        try:
+            ok = rec(0)
+        finally:
+            for k, v in saved_names.items():
+                if v is _MISSING:
+                    state.env.pop(k, None)
+                else:
+                    state.env[k] = v
+        return out if ok else Unknown("comprehension over an unmodelled iterable")
 
     def compare_expr(self, e: ast.Compare, state: State, rel: str) -> Any:
         left = self.eval(e.left, state, rel)
@@ -1117,6 +1162,16 @@ class Interp:
                     return mod(l, r.const)
             return Unknown("modulo by a symbolic/negative value")
         if isinstance(op, ast.BitAnd):
+            if (l + r).is_const() and (l + r).const == 0:
+                # x & -x : the lowest set bit
+                for x in (l, r):
+                    c = x.const
+                    if c > 0:
+                        v = (c & -c).bit_length() - 1
+                        lo_x, _ = x.rng()
+                        if lo_x is not None and lo_x >= 0 and all(cf > 0 and cf % (1 << (v + 1)) == 0 and a.rng()[0] is not None and a.rng()[0] >= 0 for a, cf in x.terms):
+                            return Lin(1 << v)
+                return Unknown("lowest set bit of a value whose low field is not a constant")
             if r.is_const() and r.const >= 0:
                 return band(l, r.const)
             if l.is_const() and l.const >= 0:
@@ -1305,6 +1360,10 @@ class Interp:
                 return Unknown(f"list method .{f.attr}")
             if isinstance(recv, MapV):
                 return self.map_method(recv, f.attr, args, state, e)
+            if isinstance(recv, Lin) and f.attr == "bit_length" and not args:
+                if recv.is_const():
+                    return Lin(recv.const.bit_length())
+                return Unknown("bit_length of a symbolic value")
             if isinstance(recv, (GenericList, TableV)):
                 if f.attr in ("append", "extend", "insert", "pop", "remove", "clear", "sort", "reverse"):
                     state.effects.append(("mutates-input", f"{core.src(f.value)}.{f.attr}(...)"))
